@@ -116,7 +116,7 @@ def gen_case(rng, sigs, i):
     elif r < 0.63:
         args = [{"t": "ns"}] + args
         kind = "explicit-ns"
-    return {"op": "F", "fn": fn, "args": args, "errmode": rng.choice(["nil", "err"]), "kind": kind}
+    return {"op": "F", "fn": fn, "args": args, "errmode": rng.choice(["nil", "err", "err", "typednil", "nilmap", "empty"]), "kind": kind}
 
 
 # ---- oracle: the property sentence, independently of the Coq model
